@@ -1,27 +1,68 @@
 ------------------------------ MODULE Blockstore ------------------------------
 (* C01 -- the default blockstore (+ optional identity-store wrapper) as a map from
    multihash to bytes.  Honest blocks only: the bytes of a block are a function of its
-   multihash, so the map degenerates to the SET of stored multihashes plus the (harness
-   side) table multihash -> bytes.
+   multihash, so the map degenerates to the SET of stored multihashes plus the table
+   multihash -> bytes, whose SHAPE (length class, hash function, multihash framing) is the
+   block universe defined below; the harness only fills in byte values of that shape.
 
    One action per public call of blockstore/blockstore.go and blockstore/idstore.go.
    A model CID is <<alias, h>>:
-     <<"v0", h>>  CIDv0 (dag-pb, sha2-256) of block h
-     <<"v1", h>>  CIDv1-raw with the SAME multihash as <<"v0", h>>
-     <<"id", k>>  identity-hash CID number k (k = 0 : empty digest)
-   The multihash of <<"v0",h>> and <<"v1",h>> is <<"sha", h>>; of <<"id",k>> it is <<"id",k>>.  *)
-EXTENDS Naturals, Sequences, FiniteSets, TLC, Json
+     <<"v0", h>>    CIDv0 (dag-pb, sha2-256) of block h          (sha2-256 blocks only)
+     <<"v1", h>>    CIDv1-raw    with the multihash of block h
+     <<"pb", h>>    CIDv1-dag-pb with the multihash of block h
+     <<"id", k>>    CIDv1-raw    identity-hash CID number k
+     <<"idpb", k>>  CIDv1-dag-pb identity-hash CID number k (same multihash as <<"id",k>>)
+   The multihash of the aliases of block h is <<"sha", h>>; of identity CID k it is <<"id",k>>.  *)
+EXTENDS Integers, Sequences, FiniteSets, TLC, Json
 
 CONSTANTS NB,        \* honest blocks 1..NB
           NID,       \* identity CIDs 0..NID-1
-          MaxBatch   \* longest PutMany argument
+          MaxBatch,  \* longest PutMany argument
+          Wide       \* BOOLEAN: all CID variants (FALSE: two aliases per block, one per identity)
 
 Blocks == 1..NB
 Ids    == 0..(NID-1)
-Cids   == ({"v0","v1"} \X Blocks) \cup ({"id"} \X Ids)
-Mh(c)  == IF c[1] = "id" THEN <<"id", c[2]>> ELSE <<"sha", c[2]>>
-IsId(c) == c[1] = "id"
+
+(* ---- the block universe ---------------------------------------------------------------
+   Lengths sit on both sides of every framing boundary a block or an inlined payload can
+   cross: empty, one byte, 127|128 (a multihash/CID length varint grows from one to two
+   bytes), 255|256, 16383|16384 (two to three varint bytes; 16 KiB).  The first entries are
+   the boundary ones so that even the smallest configurations (NB = 2, NID = 2) contain an
+   empty entry and a two-byte-varint entry.  Entries beyond the table get distinct mid-range
+   lengths (never 0 again: two empty blocks would be the same block).                       *)
+BSizes  == <<0, 128, 1, 127, 16384, 129, 255, 256>>
+IdSizes == <<0, 128, 1, 127, 16384, 129, 16383, 300>>
+BSize(h)  == IF h <= Len(BSizes)  THEN BSizes[h]      ELSE 200 + h
+IdSize(k) == IF k <  Len(IdSizes) THEN IdSizes[k + 1] ELSE 200 + k
+\* hash function of block h: every third block is addressed by sha2-512 (64-byte digest, no CIDv0 form)
+HashFn(h) == IF h % 3 = 0 THEN "sha2-512" ELSE "sha2-256"
+
+ShaAliases(h) == IF HashFn(h) = "sha2-256"
+                 THEN (IF Wide THEN {"v0", "v1", "pb"} ELSE {"v0", "v1"})
+                 ELSE {"v1", "pb"}
+IdAliases == IF Wide THEN {"id", "idpb"} ELSE {"id"}
+Cids   == (UNION {ShaAliases(h) \X {h} : h \in Blocks}) \cup (IdAliases \X Ids)
+IsId(c) == c[1] \in {"id", "idpb"}
+Mh(c)  == IF IsId(c) THEN <<"id", c[2]>> ELSE <<"sha", c[2]>>
 AllMh  == {Mh(c) : c \in Cids}
+
+\* the bytes stored under / inlined in multihash m have this length ...
+Size(m) == IF m[1] = "id" THEN IdSize(m[2]) ELSE BSize(m[2])
+\* ... and the multihash itself is <code varint><digest-length varint><digest>; an identity
+\* multihash carries the payload AS its digest.  All hash codes used here are < 128.
+VarintLen(n) == IF n < 128 THEN 1 ELSE IF n < 16384 THEN 2 ELSE 3          \* n < 2^21
+MhFn(m)      == IF m[1] = "id" THEN "identity" ELSE HashFn(m[2])
+DigestLen(m) == CASE MhFn(m) = "identity" -> IdSize(m[2])
+                  [] MhFn(m) = "sha2-256" -> 32
+                  [] MhFn(m) = "sha2-512" -> 64
+MhLen(m)     == 1 + VarintLen(DigestLen(m)) + DigestLen(m)
+\* the universe as data (printed by the generator / compared with the harness table by the trace spec)
+MhTable  == {[mh |-> m, fn |-> MhFn(m), size |-> Size(m), dlen |-> DigestLen(m), mhlen |-> MhLen(m)] : m \in AllMh}
+CidTable == {[c |-> c, mh |-> Mh(c), isid |-> IsId(c)] : c \in Cids}
+
+\* distinct model entries are distinct blocks (at most one empty one of each kind)
+ASSUME UniverseOK == /\ \A h, g \in Blocks : (BSize(h) = 0 /\ BSize(g) = 0) => h = g
+                     /\ \A k, j \in Ids : (IdSize(k) = 0 /\ IdSize(j) = 0) => k = j
 
 VARIABLES store,   \* set of multihashes currently in the backing datastore
           cfg      \* [wt |-> BOOLEAN, np |-> BOOLEAN, ids |-> BOOLEAN]  WriteThrough / NoPrefix / NewIdStore
@@ -33,8 +74,10 @@ Init == store = {} /\ cfg \in Cfgs
 
 (* ---- what a caller must observe (the property) ------------------------------------ *)
 Present(c) == IF cfg.ids /\ IsId(c) THEN TRUE ELSE Mh(c) \in store
-\* Get/View/GetSize: found => the bytes/size of multihash Mh(c), delivered under the CID asked for
-ReadRes(c) == IF Present(c) THEN [found |-> TRUE, mh |-> Mh(c)] ELSE [found |-> FALSE, mh |-> <<"none", 0>>]
+\* Get/View/GetSize: found => the bytes/size of multihash Mh(c), delivered under the CID asked for;
+\* absent => not-found (GetSize: -1)
+ReadRes(c) == IF Present(c) THEN [found |-> TRUE,  mh |-> Mh(c),       size |-> Size(Mh(c))]
+                            ELSE [found |-> FALSE, mh |-> <<"none", 0>>, size |-> -1]
 AllKeysRes == store          \* as a set of multihashes (each reported as a CIDv1-raw)
 
 (* ---- mutators ---------------------------------------------------------------------- *)
@@ -56,5 +99,9 @@ Spec == Init /\ [][Next]_vars
 TypeOK == store \subseteq AllMh /\ cfg \in Cfgs
 IdentityNeverStored == cfg.ids => \A m \in store : m[1] # "id"
 IdentityAlwaysPresent == cfg.ids => \A c \in Cids : IsId(c) => Present(c)
-AliasSameEntry == \A c, d \in Cids : Mh(c) = Mh(d) => ReadRes(c).found = ReadRes(d).found
+\* an identity CID yields exactly its inlined bytes: all of the digest, whatever its length class
+IdentityInlined == cfg.ids => \A c \in Cids : IsId(c) =>
+                      /\ ReadRes(c).mh = Mh(c) /\ ReadRes(c).size = DigestLen(Mh(c))
+                      /\ MhLen(Mh(c)) = ReadRes(c).size + 1 + VarintLen(ReadRes(c).size)
+AliasSameEntry == \A c, d \in Cids : Mh(c) = Mh(d) => ReadRes(c) = ReadRes(d)
 =============================================================================
